@@ -1,3 +1,4 @@
+mod codec;
 mod expr;
 mod treemath;
 
@@ -9,6 +10,7 @@ fn main() {
     }
     match a[1].as_str() {
         "treemath" => treemath::run(&a[2], &a[3]),
+        "codec" => codec::run(&a[2], &a[3]),
         _ => std::process::exit(2),
     }
 }
